@@ -197,10 +197,20 @@ def _check_set(cell, names, vm, ctx):
                     _fail(ctx, cname, names, "disagree", "class constructor and vector.obj disagree")
                     return
     # ---------------------------------------------------------------- array constructors
-    cols = {n: numpy.array([float(vm[n]), float(vm[n]) + 0.5, float(vm[n]) + 1.25]) for n in names}
+    # columns of different dtypes (every other one int64), fractional values in the float ones, and - for the dict form - keys
+    # in non-canonical order: what is stored must be what was given, column by column
+    cols = {}
+    for k, n in enumerate(names):
+        if k % 2:
+            cols[n] = numpy.array([int(vm[n]) + 1, int(vm[n]) + 2, int(vm[n]) + 4], dtype=numpy.int64)
+        else:
+            cols[n] = numpy.array([float(vm[n]), float(vm[n]) + 0.5, float(vm[n]) + 1.25])
+    rcols = {n: cols[n] for n in reversed(list(cols))}
     subs = valid_subsets(names)
     ctors = {
         "array_dict": lambda: vector.array(dict(cols)),
+        "array_dict_reversed": lambda: vector.array(dict(rcols)),
+        "zip_reversed": lambda: vector.zip(dict(rcols)),
         "array_dtype": lambda: vector.array(list(zip(*[cols[n] for n in names])), dtype=[(n, numpy.float64) for n in names]),
         # the dtype may be passed positionally, like numpy.array(object, dtype)
         "array_dtype_pos": lambda: vector.array(list(zip(*[cols[n] for n in names])), [(n, numpy.float64) for n in names]),
